@@ -15,14 +15,17 @@ for d in sorted(glob.glob(os.path.join(root, "seeded", "*"))):
         res = r[-1] if r else "?"
         cs = sorted(set(re.findall(r"check=([^ ;]+)", t)))
         checks = ", ".join(cs[:5])
+    if m.get("expected_result") and res != "CAUGHT":
+        res = res + " (" + m["expected_result"].split(":")[0].split("(")[0].strip() + ")"
     rows.append((n, m.get("breaks_property", "?"), m.get("summary", "").replace("|", "/")[:150], m.get("needs", "").replace("|", "/")[:130], res, checks))
 out = ["# Seeded changes and the checks that catch them", "",
        "Produced by `selftest/matrix.sh quick` (each change applied to a scratch worktree of /repo HEAD, the quick check of the property it breaks run against it) and `selftest/report.py`.",
-       "`C??a/b` = first round of independent sub-agent changes, `C??a2/b2` = second round (asked for subtler ones), `D1..D10` = re-introductions of the repaired defects.", "",
+       "`C??a/b` = first round of independent sub-agent changes, `C??a2/b2` = second round (asked for subtler ones), `C??a3/b3/c3` = third round (three variants, triggers that random generation is unlikely to hit), `D1..D19` = re-introductions of the repaired defects, `M??` = written here after the reach measurement.", "",
        "| seed | property | change | needs | result | violated checks (first 5) |", "|---|---|---|---|---|---|"]
 for r in rows:
     out.append("| " + " | ".join(r) + " |")
 caught = sum(1 for r in rows if r[4] == "CAUGHT")
-out += ["", f"{caught} of {len(rows)} caught by the quick check of the property they break."]
+notes = [f"* {os.path.basename(d)}: {json.load(open(os.path.join(d, 'meta.json')))['expected_result']}" for d in sorted(glob.glob(os.path.join(root, "seeded", "*"))) if os.path.isdir(d) and json.load(open(os.path.join(d, "meta.json"))).get("expected_result")]
+out += ["", f"{caught} of {len(rows)} caught by the quick check of the property they break.", "", "Not caught by the quick check, with the reason:"] + notes
 open(os.path.join(root, "seeded", "RESULTS.md"), "w").write("\n".join(out) + "\n")
 print(caught, "of", len(rows))
